@@ -370,3 +370,69 @@ Section Parsed.
     destruct Hx as [->|[<-|[]]]; [left|right]; reflexivity.
   Qed.
 End Parsed.
+
+(* ---- per node: checksum maps survive the SPDX round trip (C01) -------------------------------------- *)
+From Verif Require Import Proofs.KvFacts.
+From Coq Require Import Sorted.
+
+(* hash maps SPDX 2.3 can carry: unique algorithms (as in any map), sorted as protobuf and the harness
+   print them, every algorithm one of the 16 with an SPDX spelling *)
+Definition spdx_hash_class (hs : list (Z * string)) : Prop :=
+  ksorted hs /\ forall kv, In kv hs -> fst kv <> 0 /\ zmem (fst kv) HashAlgorithm_values = true /\ hash_to_spdx (fst kv) <> "".
+
+Lemma zmem_In x l : zmem x l = true -> In x l.
+Proof.
+  induction l as [|y r IH]; simpl; [discriminate|]. intros H. apply orb_true_iff in H as [H|H].
+  - apply Z.eqb_eq in H. left. auto.
+  - right. exact (IH H).
+Qed.
+
+Lemma spdx_algo_rt a : zmem a HashAlgorithm_values = true -> hash_to_spdx a <> "" -> hash_from_spdx (hash_to_spdx a) = a.
+Proof.
+  intros Hm Hne. pose proof checksum_algos_roundtrip as [T _]. rewrite forallb_forall in T.
+  specialize (T a (zmem_In _ _ Hm)). destruct (hash_to_spdx a) eqn:E; [contradiction|]. apply Z.eqb_eq in T. exact T.
+Qed.
+
+Lemma spdx_hashes_fold hs : forall acc,
+  (forall kv, In kv hs -> fst kv <> 0 /\ zmem (fst kv) HashAlgorithm_values = true /\ hash_to_spdx (fst kv) <> "") ->
+  NoDup (map fst (acc ++ hs)) ->
+  fold_left (fun acc c => let a := hash_from_spdx (fst c) in
+                          if Z.eqb a 0 then acc
+                          else (a, snd c) :: filter (fun kv => negb (Z.eqb (fst kv) a)) acc)
+            (checksums_of hs) acc = rev hs ++ acc.
+Proof.
+  induction hs as [|[a v] r IH]; intros acc Hc Hn; [reflexivity|].
+  destruct (Hc (a, v) (or_introl eq_refl)) as [Hne [Hm Hs]]. cbn [fst] in *.
+  unfold checksums_of. cbn [flat_map fst snd]. rewrite Hm.
+  pose proof (spdx_algo_rt a Hm Hs) as Hrt.
+  destruct (hash_to_spdx a) as [|ch rest] eqn:E; [contradiction|]. cbn [app fold_left fst snd].
+  rewrite Hrt. apply Z.eqb_neq in Hne. rewrite Hne.
+  rewrite map_app in Hn. cbn [map fst] in Hn.
+  assert (Hna : ~ In a (map fst acc)).
+  { intros H. apply NoDup_app_inv in Hn as [_ [_ Hd]]. apply (Hd a H). left. reflexivity. }
+  assert (Hf : filter (fun kv : Z * string => negb (Z.eqb (fst kv) a)) acc = acc).
+  { apply filter_all_true. intros kv Hkv. apply negb_true_iff, Z.eqb_neq. intros Eq. apply Hna. apply in_map_iff. exists kv. auto. }
+  rewrite Hf. fold (checksums_of r). rewrite IH.
+  - cbn [rev]. rewrite <- app_assoc. reflexivity.
+  - intros kv Hkv. apply Hc. right. exact Hkv.
+  - cbn [app map fst]. apply NoDup_app_inv in Hn as [Hn1 [Hn2 Hd]]. inversion Hn2 as [|? ? Hnr Hn2']; subst.
+    constructor.
+    + rewrite map_app. intros H. apply in_app_or in H as [H|H]; [exact (Hna H)|exact (Hnr H)].
+    + rewrite map_app. apply NoDup_app_intro; [exact Hn1|exact Hn2'|]. intros y Hy1 Hy2. apply (Hd y Hy1). right. exact Hy2.
+Qed.
+
+Theorem spdx_hashes_roundtrip hs : spdx_hash_class hs -> kvsort (hashes_of (checksums_of hs)) = hs.
+Proof.
+  intros [Hs Hc]. unfold hashes_of.
+  assert (Hn : NoDup (map fst ([] ++ hs))) by (cbn; apply ksorted_NoDup; exact Hs).
+  transitivity (kvsort (rev hs ++ [])); [f_equal; exact (spdx_hashes_fold hs [] Hc Hn)|].
+  rewrite app_nil_r. apply kvsort_unique; [exact Hs|apply Permutation_sym, Permutation_rev].
+Qed.
+
+Theorem spdx_package_hashes parse_time fmt_time n : spdx_hash_class (n_hashes n) ->
+  n_hashes (pkg_to_node parse_time (node_to_pkg fmt_time n)) = n_hashes n.
+Proof. intros H. unfold pkg_to_node, node_to_pkg; cbn [n_hashes sp_checksums]. apply spdx_hashes_roundtrip. exact H. Qed.
+
+Theorem spdx_file_hashes n : spdx_hash_class (n_hashes n) ->
+  n_hashes (file_to_node (node_to_file n)) = n_hashes n.
+Proof. intros H. unfold file_to_node, node_to_file; cbn [n_hashes sf_checksums]. apply spdx_hashes_roundtrip. exact H. Qed.
